@@ -8,6 +8,7 @@ import (
 
 	"github.com/goghcrow/yae/compiler"
 	"github.com/goghcrow/yae/trans"
+	"github.com/goghcrow/yae/types"
 	"github.com/goghcrow/yae/val"
 	"pgregory.net/rapid"
 
@@ -269,13 +270,135 @@ var c10opt = gen.ProgOpt{Fuel: 4, Partial: true, Sugar: true, Maybe: true, Times
 
 var c10m = Register(&Prop[ProgCase]{ID: "C10", Name: "sugar-semantics", Gen: genProgCase(c10opt, run.StdHarness), Check: checkSugarSemantics})
 
+// ---- operators a host registers itself, also AFTER the engine has been used: x op y and op x
+// are the calls op(x, y) and op(x) of the function registered under the operator's name
+
+type UserOpCase struct {
+	ProgCase
+	First string `json:"first"` // what the engine did before the operators were registered: none | parse | compile | compile-expr
+}
+
+var userOpTable = []struct {
+	op  ref.Op
+	sig ref.FunSig
+}{
+	{ref.Op{Name: "--", BP: 7, Fix: "infixl"}, ref.FunSig{Name: "--", Params: []*m.Type{m.Num, m.Num}, Ret: m.Num, Impl: "hsub"}},
+	{ref.Op{Name: "<+>", BP: 8, Fix: "infixr"}, ref.FunSig{Name: "<+>", Params: []*m.Type{m.Num, m.Num}, Ret: m.Num, Impl: "hsub"}},
+	{ref.Op{Name: "minus", BP: 7, Fix: "infixl"}, ref.FunSig{Name: "minus", Params: []*m.Type{m.Num, m.Num}, Ret: m.Num, Impl: "hsub"}},
+	{ref.Op{Name: "~", BP: 10, Fix: "prefix"}, ref.FunSig{Name: "~", Params: []*m.Type{m.Num}, Ret: m.Num, Impl: "hpost"}},
+	{ref.Op{Name: "succ", BP: 10, Fix: "prefix"}, ref.FunSig{Name: "succ", Params: []*m.Type{m.Num}, Ret: m.Num, Impl: "hpost"}},
+	{ref.Op{Name: "!!", BP: 12.5, Fix: "postfix"}, run.SigPost},
+}
+
+func genUserOpCase(t *rapid.T) *UserOpCase {
+	o := c10opt
+	g := gen.NewG(t, o)
+	num := func() *m.Expr { return g.Expr(m.Num) }
+	used := map[int]bool{}
+	var apply func(depth int) *m.Expr
+	apply = func(depth int) *m.Expr {
+		operand := num
+		if depth > 0 && rapid.IntRange(0, 2).Draw(t, "nestop") == 0 {
+			operand = func() *m.Expr { return apply(depth - 1) }
+		}
+		i := rapid.IntRange(0, len(userOpTable)-1).Draw(t, "userop")
+		used[i] = true
+		u := userOpTable[i]
+		switch u.op.Fix {
+		case "prefix":
+			return m.Prefix(u.op.Name, operand())
+		case "postfix":
+			return m.Postfix(u.op.Name, operand())
+		}
+		return m.Infix(u.op.Name, operand(), operand())
+	}
+	var e *m.Expr
+	switch rapid.IntRange(0, 3).Draw(t, "useropform") {
+	case 0:
+		e = apply(2)
+	case 1:
+		e = m.Infix("+", apply(1), num())
+	case 2:
+		e = m.Call("max", num(), apply(1))
+	default:
+		e = m.Call("if", m.Infix("<", apply(1), num()), apply(1), num())
+	}
+	e = gen.Parenthesize(e)
+	c := &UserOpCase{First: []string{"none", "parse", "compile", "compile-expr"}[rapid.IntRange(0, 3).Draw(t, "first")]}
+	c.E, c.Env, c.Vals, c.Stats = e, g.Env, g.Vals, g.Stats
+	c.Extra = append([]ref.FunSig(nil), run.StdHarness...)
+	for i, u := range userOpTable {
+		if used[i] {
+			c.Ops = append(c.Ops, u.op)
+			c.Extra = append(c.Extra, u.sig)
+		}
+	}
+	return c
+}
+
+func checkUserOps(c *UserOpCase) *Outcome {
+	pc := &c.ProgCase
+	r := refRun(pc)
+	if r.RefErr != nil {
+		return skip("harness:reference-rejects-generated-program")
+	}
+	if s := domainSkip(r); s != "" {
+		return skip(s)
+	}
+	nStd := len(run.StdHarness)
+	for _, be := range []run.Backend{run.VMSwitch, run.Closure} {
+		en := run.NewEngine(be, c.Extra[:nStd])
+		// the engine is used before the host registers its operators
+		first := run.Guard(func() {
+			switch c.First {
+			case "parse":
+				en.E.Parse("1 + 1")
+			case "compile":
+				_, _ = en.E.Compile("1 + 1", nil)
+			case "compile-expr":
+				en.E.CompileExpr(en.E.Parse("1 + 1"), types.NewEnv())
+			}
+		})
+		if first != nil {
+			return bad("%s: using the engine (%s of 1 + 1) panicked: %s", be, c.First, first.Text)
+		}
+		en.E.RegisterOperator(run.YaeOps(c.Ops)...)
+		for _, f := range c.Extra[nStd:] {
+			en.E.RegisterFun(run.MakeHarnessFun(f, en.Tr))
+		}
+		o := en.RunSrc(r.Src, c.Env, c.Vals)
+		b := &BackendRun{O: o}
+		if o.Compiled() && !o.Failed() {
+			b.Val, b.Probs = run.FromYaeVal(o.Val, r.RefType)
+		}
+		if !o.Compiled() {
+			return bad("%s: operator notation over operators registered %s does not compile: %s\n src: %s\n operators: %v", be, lateText(c.First), describeOutcome(b), r.Src, c.Ops)
+		}
+		r.Runs = []*BackendRun{b}
+		if err := compareWithRef(pc, r); err != nil {
+			return &Outcome{Err: fmt.Errorf("operators registered %s: %v\n operators: %v", lateText(c.First), err, c.Ops)}
+		}
+	}
+	return ok(c.First != "none", "operators-registered:"+lateText(c.First), fmt.Sprintf("user-operators:%d", len(c.Ops)))
+}
+
+func lateText(first string) string {
+	if first == "none" {
+		return "before first use"
+	}
+	return "after a first " + first
+}
+
+var c10ops = Register(&Prop[UserOpCase]{ID: "C10", Name: "user-operators", Gen: genUserOpCase, Check: checkUserOps})
+
 func TestC10(t *testing.T) {
-	R.Rule = "structural half: parsed trees from the C08 tree generator (all node kinds nested in all operand positions, any operator table) - desugared tree has only core forms, equals the reference rewrite (names, receiver-first argument order, literal text), desugaring twice changes nothing, the input tree (structure and positions) is untouched; semantic half: generated well-typed programs in sugared notation (?:, method calls, redundant parentheses, operators) against the explicit notation (if(...), f(o, args), no parentheses) in source and against hand-built call trees op(x, y) compiled directly - same inferred type, same value or failure, same host-function trace on every back end; a parsed tree given to a whole compilation (Expr.CompileExpr) is afterwards deep-equal, annotations included, to a second parse of the same text; non-trivial = >= 2 sugared nodes with one nested in another's operand, or a method call with a sugared receiver"
+	R.Rule = "structural half: parsed trees from the C08 tree generator (all node kinds nested in all operand positions, any operator table) - desugared tree has only core forms, equals the reference rewrite (names, receiver-first argument order, literal text), desugaring twice changes nothing, the input tree (structure and positions) is untouched; semantic half: generated well-typed programs in sugared notation (?:, method calls, redundant parentheses, operators) against the explicit notation (if(...), f(o, args), no parentheses) in source and against hand-built call trees op(x, y) compiled directly - same inferred type, same value or failure, same host-function trace on every back end; operator notation over operators the host registers itself (infix / prefix / postfix, symbols and words, one of them spelt with two built-in operator characters), before the engine's first use or after a first Parse / Compile / CompileExpr, against the reference's reading op(x, y) / op(x) with the same host-function trace; a parsed tree given to a whole compilation (Expr.CompileExpr) is afterwards deep-equal, annotations included, to a second parse of the same text; non-trivial = >= 2 sugared nodes with one nested in another's operand, or a method call with a sugared receiver"
 	R.Assume = []string{"ref.Desugar (harness) is the meaning of the notation"}
 	reportKnown(t, "C10")
 	runRegress(t, "C10")
 	c10s.Run(t, budget(10000, 640000))
 	c10m.Run(t, budget(4000, 200000))
+	c10ops.Run(t, budget(2500, 120000))
 }
 
 var _ = val.True
